@@ -147,6 +147,18 @@ class SymX:
                 tupforms = self._splice(val.elts, s)
             elif isinstance(val, ast.Name) and val.id in s.tup:
                 tupforms = s.tup[val.id]
+            elif isinstance(val, ast.Subscript):
+                # store-to-load forwarding on a straight path:  c[k] = (a, b) ... x, y = c[k]
+                try:
+                    vt = self._target_text(val, lin)
+                except Exception:
+                    vt = None
+                if vt is not None:
+                    for ev_ in reversed(s.events):
+                        if ev_.kind == 'store' and ev_.target == vt:
+                            if ev_.extra:
+                                tupforms = list(ev_.extra)
+                            break
             f = lin.form(val)
             # chained assignment  self.x = y = <fresh container>  : y aliases self.x
             attr_t = [t for t in st.targets if isinstance(t, ast.Attribute)]
